@@ -15,7 +15,7 @@ from .seams import Seam, SimPoint
 TS = ["1/2", "1/3", "2/3", "1/4", "3/4", "1/5", "5/8", "7/16"]
 TOLS = {"default": "default", "1e-3": 1e-3, "1e-12": 1e-12, "0": 0, "none": None}
 BAD = {"str": "abc", "none": None, "list": [0, 1]}
-NUMERIC_PROFILES = ("frac", "vec", "fvec")
+NUMERIC_PROFILES = ("frac", "vec", "fvec", "int-ndarray")
 OWNER = {"insert": "C04", "remove": "C05", "elevate": "C06", "reduce": "C06",
          "knot_clean": "C14", "degree_clean": "C14", "clean": "C14"}
 
@@ -82,6 +82,8 @@ def gen_plan(prop, seed, tier):
     mode = rng.choice(["exact", "exact", "exact", "float"])
     rational = rng.random() < 0.3
     profile = rng.choice(["frac", "frac", "vec", "vec"])
+    if prop in ("C05", "C14") and rng.random() < 0.12:
+        profile = "int-ndarray"      # integer-dtype array points: the fitted values must not be squeezed back into int64
     if prop in ("C04", "C06") and rng.random() < 0.25:
         profile = rng.choice(["sim-full", "sim-minimal", "sim-bounded", "sim-nofloat", "int-ndarray"])
     if mode == "float" and profile == "vec":
@@ -91,8 +93,11 @@ def gen_plan(prop, seed, tier):
     if profile == "sim-minimal":
         rational = False
     if profile == "int-ndarray":
-        mode = rng.choice(["exact", "float", "float"])
-        rational = rng.random() < 0.7
+        if prop in ("C05", "C14"):
+            mode, rational = "exact", False
+        else:
+            mode = rng.choice(["exact", "float", "float"])
+            rational = rng.random() < 0.7
     maxp = 3 if rng.random() < 0.85 else 4
     if rational:
         maxp = min(maxp, 3)
@@ -113,10 +118,20 @@ def gen_plan(prop, seed, tier):
     cfg["offset"] = rng.choice(["1000000", "3000000", "-2500000"]) if (mode == "exact" and profile in ("frac", "vec") and rng.random() < 0.08) else None
     # control points handed in as row views of ONE parent array, in reversed row order
     cfg["viewpts"] = profile in ("vec", "fvec") and rng.random() < 0.15
-    if large:
+    cfg["huge"] = prop == "C04" and mode == "exact" and profile in ("frac", "vec") and not rational and not cfg["shadow"] \
+        and not cfg["bigden"] and rng.random() < 0.02
+    if cfg["huge"]:
+        # a long curve (more than 64 control points): size thresholds inside the library, long index ranges
+        hp = rng.randint(1, 2)
+        nk = rng.randint(64, 72)
+        mults = [hp + 1] + [1 if rng.random() < 0.9 else hp for _ in range(nk)] + [hp + 1]
+        npts_h = sum(mults) - hp - 1
+        dimh = 1 if profile == "frac" else 2
+        cfg["init"] = {"p": hp, "knots": [M.enc(Fraction(i)) for i in range(nk + 2)], "mults": mults,
+                       "pts": [[M.enc(Fraction(rng.randint(-9, 9))) for _ in range(dimh)] for _ in range(npts_h)]}
+    elif large:
         cfg["init"] = gen_curve_spec(rng, mode, rational, 4, rng.randint(3, 6), "frac" if profile == "frac" else "vec",
                                      dyadic=cfg["shadow"], maxnpts=20)
-        cfg["init"]["p"] = cfg["init"]["p"]
     else:
         cfg["init"] = gen_curve_spec(rng, mode, rational, maxp, rng.randint(0, 3), "frac" if profile == "frac" else "vec",
                                      dyadic=cfg["shadow"], bigden=cfg["bigden"])
@@ -129,6 +144,9 @@ def gen_plan(prop, seed, tier):
     }[prop]
     kinds = [k for k, w in weights for _ in range(w)]
     ops = []
+    if cfg.get("huge"):
+        kinds = ["insert"]
+        nops = rng.randint(1, 3)
     if cfg["twin"]:
         ops.append({"op": "twin"})
     for _ in range(nops):
@@ -372,11 +390,27 @@ class RefEngine:
         raise HarnessError("unknown selector %r" % (sel,))
 
     def resolve_all(self, curve, sels, cfg, st):
+        """Resolve selectors; keep the explored space away from the library's knot-merging tolerances (1e-6 / 1e-9): a node is
+        dropped when it would come closer than 1e-4 to a DIFFERENT knot or to a different node of the same request."""
         vals, tags = [], []
+        try:
+            present = [M.Fr(k) for k in curve.knotvector]
+        except (TypeError, ValueError):
+            present = []
+        limit = Fraction(1, 10 ** 4)
         for sel in sels:
             v, tag = self.resolve(curve, sel, cfg, st)
             if tag == "skip":
                 continue
+            if tag not in ("bad", "out"):
+                ok = True
+                for x in v:
+                    fx = M.Fr(x)
+                    if any(fx != y and abs(fx - y) < limit for y in present):
+                        ok = False
+                if not ok:
+                    continue
+                present += [M.Fr(x) for x in v]
             vals += v
             tags.append(tag)
         return vals, tags
@@ -652,6 +686,9 @@ class RefEngine:
             vals, tags = self.resolve_all(curve, op["nodes"], cfg, s0)
         if not vals:
             return "skip"
+        if len(s0[1]) > 30:
+            ctx.count("removal_skipped_by_size_rule")
+            return "skip"
         if rat:
             # exact least squares over rational bases is very expensive: size rule (not a timer)
             p = M.kv_degree(s0[0])
@@ -907,6 +944,9 @@ class RefEngine:
             times = rec["times"]
             ctx.probe("undo-of-elevation")
         valid = isinstance(times, int) and times >= 1
+        if len(s0[1]) > 30:
+            ctx.count("reduction_skipped_by_size_rule")
+            return "skip"
         if rat and valid:
             if p > 3 or len(s0[1]) > 7 or self.rational_steps >= 2:
                 ctx.count("rational_reduction_skipped_by_size_rule")
@@ -1017,7 +1057,7 @@ class RefEngine:
         s0 = self.alpha(curve)
         rat = s0[2] is not None
         p = M.kv_degree(s0[0])
-        if rat and (p > 2 or len(s0[1]) > 5 or self.rational_steps >= 2):
+        if len(s0[1]) > 30 or (rat and (p > 2 or len(s0[1]) > 5 or self.rational_steps >= 2)):
             ctx.count("rational_clean_skipped_by_size_rule")
             return "skip"
         if rat:
